@@ -60,7 +60,7 @@ AddNode(k, d, h) ==
 \* a finished VALID structure becomes a base kernel
 FinishValid ==
   /\ phase = "build" /\ ns # <<>>
-  /\ UsesOK(ns) /\ Valid(ns, "void")
+  /\ Generated(ns) /\ Valid(ns, "void")
   /\ base' = Shape(ns)
   /\ toks' = Tokens(ns, "void")
   /\ phase' = "base"
@@ -122,7 +122,7 @@ PickArg(a) ==
   /\ UNCHANGED <<ns, base, toks>>
 
 Next == \/ \E k \in Kinds, d \in 1..MaxDepth :
-            \E h \in (IF k \in Okl THEN GoodH ELSE {"-"}) : AddNode(k, d, h)
+            \E h \in (IF k \in Okl THEN GoodH ELSE IF k \in Tiles THEN {"lt"} ELSE {"-"}) : AddNode(k, d, h)
         \/ FinishValid
         \/ \E i \in SeedIdx : PickSeed(i)
         \/ \E op \in Ops : PickOp(op)
